@@ -110,6 +110,8 @@ class Part:
             # oversized tasks behind busy workers, the pool torn down by each route (and gracefully, for contrast)
             {"k": k, "seq": [{"kind": "broken", "n": 1, "how": "sigkill", "big": 1},
                              {"kind": "kill", "n": 1, "busy": 1, "big": 1, "keep": True}]},
+            # workers with live descendants, killed by a forced shutdown and by the termination of a broken pool
+            {"k": k, "seq": [{"kind": "kill", "n": 2, "desc": True}, {"kind": "broken", "n": 2, "how": "sigkill", "desc": True}]},
             {"k": k, "seq": [{"kind": "rekill", "n": 1, "big": 1}, {"kind": "clean", "n": 1, "big": 1, "keep": True},
                              {"kind": "rekill", "n": 2, "big": 2, "futs": ["badarg"], "keep": True}]},
         ]
@@ -130,8 +132,12 @@ class Part:
                 spec[v] = True
         elif kind == "kill":
             spec["busy"] = rng.choice([0, n])
+            if rng.random() < 0.35:
+                spec["desc"] = True          # the workers have live descendants when they are killed
         elif kind == "broken":
             spec["how"] = rng.choice(["osexit", "sigkill"])
+            if spec["how"] == "sigkill" and rng.random() < 0.35:
+                spec["desc"] = True
         # oversized tasks queued behind busy workers when the pool is torn down
         if (kind in ("kill", "rekill", "clean") or spec.get("how") == "sigkill") and not spec.get("ctx") \
                 and not spec.get("nested") and rng.random() < 0.4:
